@@ -21,7 +21,8 @@ ID = "C35"
 PROP_FILE = "Props/C35.v"
 THEOREMS = ["C35_a_inputs_never_modified", "C35_a_inputs_read_back_unchanged", "C35_b_reachable_states",
             "C35_b_event_internal_values_kept", "C35_b_event_handler", "C35_b_external_reference",
-            "C35_b_cached_reference_at_stop", "C35_b_stop_handler", "C35_c_backup_exactly_once_in_order",
+            "C35_b_cached_reference_at_stop", "C35_b_stop_handler", "C35_b_full", "C35_b_ranges_ignore_arrival_order",
+            "C35_c_backup_exactly_once_in_order",
             "C35_c_default_buffer_covers_the_run"]
 _COQ_BASE = "From BV Require Import Pure.Normalizer Pure.NormalizerSpec.\nFrom BVgen Require TiledTables.\nFrom Coq Require Import String ZArith List.\nOpen Scope string_scope."
 COQ_IMPORTS = _COQ_BASE      # coq_term appends the table of interned string literals (see cstr)
